@@ -192,11 +192,32 @@ func c02Feature(c *ctx) *geojson.Feature {
 	for i := 0; i < c.rng.Intn(4); i++ {
 		f.Properties[[]string{"name", "v", "type", "é", "n1"}[c.rng.Intn(5)]] = c02Value(c, 2)
 	}
+	if c.rng.Intn(8) == 0 {
+		// two names of equal length that collide under a common 32-bit hash (see hashnames.go), together or alone: a name
+		// is its bytes, whatever a table in between makes of it
+		pair := collidingNames()[c.rng.Intn(len(collidingNames()))]
+		switch c.rng.Intn(3) {
+		case 0:
+			f.Properties[pair[0]] = c02Value(c, 1)
+		case 1:
+			f.Properties[pair[1]] = c02Value(c, 1)
+		default:
+			f.Properties[pair[0]], f.Properties[pair[1]] = c02Value(c, 1), c02Value(c, 1)
+		}
+	}
 	if c.rng.Intn(5) == 0 {
 		f.Properties = nil
 	}
 	if c.rng.Intn(3) == 0 {
 		f.BBox = geojson.BBox{wktFloat(c), wktFloat(c), wktFloat(c), wktFloat(c)}
+		switch c.rng.Intn(6) { // a box at the origin, of no extent, with a third dimension: a bbox like any other
+		case 0:
+			f.BBox = geojson.BBox{0, 0, 0, 0}
+		case 1:
+			f.BBox = geojson.BBox{0, 0, -5, 0, 0, 12}
+		case 2:
+			f.BBox = geojson.BBox{0, 0, 0, wktFloat(c)}
+		}
 	}
 	return f
 }
